@@ -63,6 +63,7 @@ type Task struct {
 	goid        uint64
 	started     bool
 	lastFaulted bool
+	warm        bool
 	// FaultSteps lists the scheduler steps at which a fault was delivered to this task.
 	FaultSteps []int
 }
@@ -284,6 +285,16 @@ func (s *Sim) curTask(p *Proc) *Task {
 func (s *Sim) Hot(ctx context.Context) {
 	if t := TaskFrom(ctx); t != nil {
 		t.lastFaulted = true
+	}
+}
+
+// Warm marks the task of ctx as having just committed something after which
+// code typically looks again (a delete): its next request is somewhat more
+// likely to be faulted than the run's rate says, so that "act, then re-read"
+// sequences meet a failing re-read often enough.
+func (s *Sim) Warm(ctx context.Context) {
+	if t := TaskFrom(ctx); t != nil {
+		t.warm = true
 	}
 }
 
@@ -540,7 +551,11 @@ func (s *Sim) decide(r *Request) Outcome {
 	// much more likely to be faulted too (faults cluster in real outages, and
 	// the interesting recovery paths need two in a row).
 	burst := r.Task.lastFaulted && s.Cfg.Permille > 0 && a%2 == 1
-	r.Task.lastFaulted = false
+	if r.Task.warm && s.Cfg.Permille > 0 && a%8 == 3 {
+		burst = true
+		s.Probes["fault-right-after-a-delete"]++
+	}
+	r.Task.lastFaulted, r.Task.warm = false, false
 	if len(menu) == 0 || (a < 1000-s.Cfg.Permille && !burst) {
 		return OK
 	}
